@@ -77,6 +77,10 @@ func govcHostileCorpus() []govcHostile {
 		{"ninth-lexer-error-is-a-backslash-before-a-line-break", []string{"a \"\\1\"; b \"\\2\"; c \"\\3\"; d \"\\4\"; e \"\\5\"; f \"\\6\"; g \"\\7\"; h \"\\8\"; i \"x\\\n  y\";"}, true},
 		{"inner-grouping-uses-the-enclosing-one-unused", []string{hdr("m") + "grouping k { container c { grouping inner { container v { uses k; } } leaf a { type string; } } } container top { uses k; } }"}, false},
 		{"inner-grouping-uses-the-enclosing-one-used", []string{hdr("m") + "grouping k { container c { grouping inner { uses k; } uses inner; } } container top { uses k; } }"}, true},
+		{"decimal64-fraction-digits-64-with-min-max", []string{hdr("m") + "leaf x { type decimal64 { fraction-digits 64; range \"min..max\"; } } leaf y { type decimal64 { fraction-digits 320; range \"1..max\"; } } }"}, true},
+		{"decimal64-fraction-digits-huge", []string{hdr("m") + "typedef d { type decimal64 { fraction-digits 99999999999999999999; range \"min..10\"; } } leaf x { type d; } }"}, true},
+		{"augment-with-a-taken-name", []string{hdr("b") + "container top { leaf name { type string; } } }", hdr("a") + "import b { prefix b; } augment \"/b:top\" { leaf name { type string; } leaf other { type string; } } }"}, true},
+		{"submodules-with-revisions-include-each-other-and-a-misspelt-uses", []string{"module m { namespace \"urn:m\"; prefix m; include s1; include s2; container c { uses misspelt; } }", "submodule s1 { belongs-to m { prefix m; } include s2; revision 2020-01-01; grouping g1 { leaf a { type string; } } }", "submodule s2 { belongs-to m { prefix m; } include s1; revision 2021-01-01; container d { uses alsomisspelt; } }"}, true},
 		{"empty", []string{""}, false},
 		{"only-comment", []string{"// nothing\n/* at all */"}, false},
 		{"unterminated-string", []string{"module m { namespace \"urn:m; prefix m; }"}, true},
